@@ -199,7 +199,7 @@ if __name__ == "__main__":
     ctx.assumptions = [
         "clock advances are non-negative whole seconds and finite TTLs whole seconds (the datastore-backed book stores expiries as unix seconds); total clock advance below ConnectedAddrTTL (292 years) — the only hypothesis of the pstoremem theorems (clock_ok)",
         "the pstoreds theorems (c09_ds_refines_spec, c09_ds_trace_holds, c09_mem_ds_equivalent, c09_ds_bounded_after_gc) hold under ds_ok: whole-second non-negative clock steps staying one second below ConnectedAddrTTL; every TTL <= 0, whole seconds or >= ConnectedAddrTTL; seq >= 0; lookahead interval >= 0 (each clause shown necessary by a witness)",
-        "theorems are about the books whose caps never bind (default caps on small universes / caps disabled); histories with binding caps are generated but judged by the weak monitor only (soundness + bound), because eviction ties depend on Go map order",
+        "theorems are about the books whose caps never bind (default caps on small universes / caps disabled); histories with binding caps are generated but judged by the weak monitor only (soundness + the bound cap + 2k per peer): under a binding cap the books drop addresses by design, pstoremem picks victims by Go map order on ties and pstoreds counts once per batch and evicts only among pre-existing entries, so 'exactly' and 'same answers' have no well-defined target there",
         "container/heap ordering abstracted: PopIfExpired pops every heap entry with expiry <= now; sort.Slice = a correct sort; go-datastore map store and the ARC cache (never evicting: cache disabled or larger than the universe) behave as maps",
         "signed records: envelopes are real (ed25519, record.Seal); a record is identified by (peer, seq, address list)",
         "each book method is one critical section (mutexes not modelled); AddrStream not covered",
@@ -217,7 +217,7 @@ if __name__ == "__main__":
              "{-1,0,10s,2m,15m,30m,1h,connected,permanent}: AddAddr(s)/SetAddr(s)/record batches of 1-4 with own/foreign /p2p suffixes, one in five naming an address twice (plainly, or once with /p2p/<self>), UpdateAddrs between "
              "classes, ClearAddrs, ConsumePeerRecord with real sealed envelopes (lower/equal/higher seq, empty, wrong signer), clock advances "
              "(exactly TTL, TTL-1, small, 0), GC runs, close/reopen; every history is run on pstoremem and on pstoreds (cache 0 / >0, full-purge / "
-             "lookahead GC), one in five with binding caps; plus reopen inserted after every (3rd) prefix. Deadline-directed histories: a shadow book steers writes and clock advances relative to the deadlines assigned so far (re-add with a smaller TTL class late enough that now+ttl outlives the old deadline, or too early to; UpdateAddrs(old == new) as a refresh; UpdateAddrs to another class; SetAddrs late in the life; connected and back), and the clock is walked to one second before / exactly on / just after / between the old and new deadlines with reads (Addrs, PeersWithAddrs, GetPeerRecord, GC, close+reopen) there, on pstoremem and pstoreds with cache off and on. Every answer is compared with the "
+             "lookahead GC), one in five with binding caps; plus reopen inserted after every (3rd) prefix. Deadline-directed histories: a shadow book steers writes and clock advances relative to the deadlines assigned so far (re-add with a smaller TTL class late enough that now+ttl outlives the old deadline, or too early to; UpdateAddrs(old == new) as a refresh; UpdateAddrs to another class; SetAddrs late in the life; connected and back), and the clock is walked to one second before / exactly on / just after / between the old and new deadlines with reads (Addrs, PeersWithAddrs, GetPeerRecord, GC, close+reopen) there, on pstoremem and pstoreds with cache off and on. Binding per-peer caps (1-3): fixed cases and histories built around batches that mix overrides of connected-class entries with new finite addresses, batches larger than the cap, connected->finite moves followed by insertions, on pstoremem and pstoreds (cache off/on) with the same cap; judged by the weak monitor (soundness + |Addrs(p)| <= cap + 2k); how often the two books differ is counted. Every answer is compared with the "
              "Coq model of that store (conform_case) and judged against the abstract book by the property monitor (monitor_case).",
         describe=describe, key=key, what=what, crosscheck=150,
     ))
